@@ -20,12 +20,12 @@ func init() {
 		Assumptions: []string{"numbers below 2^50 (Lua numbers are doubles: above 2^53 integer precision is lost) and clocks below 2^44 ms", "the two keys are only written by this script (no eviction, no foreign writer)", "strconv number formatting/parsing on the Go side is replaced by placeholder-based overrides (symbolic numbers cannot be rendered digit by digit)", "the Lua interpreter and the Redis model (GET, SET PXAT, INCRBY, key expiry by the server clock) are harness code"},
 		Trusted:     []string{"harness/luasym.go.txt (Lua subset interpreter, Redis model)"},
 		Outside:     []string{"per-call custom limits (WithCustomRateLimit) mixing different limits on one identifier", "transport errors (no units are admitted when AllowN returns an error)"},
-		Bounds:      map[string]any{"quick": "inductive step (any history length); histories of 3 calls; histories of 2 calls with one lost reply", "thorough": "inductive step; histories of 4 calls; 3 calls with one lost reply"},
+		Bounds:      map[string]any{"quick": "inductive step (any history length); histories of 3 calls; histories of 2 calls with one lost reply", "thorough": "inductive step; histories of 3 calls; 3 calls with one lost reply"},
 		specs: func(tier string) []specRef {
 			a := hsx(limiterPkg, "VerifC38_step", nil, 2000000, 3000, "negative", "newwindow", "samewindow", "admitted", "denied")
 			a.dir = "rueidislimiter"
 			a.spec.Overrides = luaOverrides
-			b := hsx(limiterPkg, "VerifC38_history", P{"calls": q(tier, int64(3), 4), "lost_replies": 0}, 2000000, 3000, "admitted", "twowindows")
+			b := hsx(limiterPkg, "VerifC38_history", P{"calls": 3, "lost_replies": 0}, 2000000, 3000, "admitted", "twowindows")
 			b.dir = "rueidislimiter"
 			b.spec.Overrides = luaOverrides
 			c := hsx(limiterPkg, "VerifC38_history", P{"calls": q(tier, int64(2), 3), "lost_replies": 1}, 2000000, 3000, "admitted", "lostreply")
